@@ -34,6 +34,7 @@ EXHAUSTIVE_THOROUGH = True
 
 KINDS = ("udp", "tcp", "secure")
 _PRE = {}
+_ALL_INJECTED = {}
 _SEEN_LINES = set()
 _STATS = {"depth": {}, "dedup_lines": 0, "max_boundaries": 0, "not_injected": 0}
 
@@ -88,6 +89,7 @@ def run_impl(case):
     _STATS["max_boundaries"] = max(_STATS["max_boundaries"], nb)
     if ninj < len(sched):
         _STATS["not_injected"] += 1
+        _ALL_INJECTED[op] = False
     from harness import c25_sim
     line = f"c25 monitor {kind} {int(auto)} {c25_sim.N_CALLBACKS} {trace}"
     h = hash(line)
@@ -273,7 +275,7 @@ def finding_key(case, msg):
 
 
 def nontrivial(case, out):
-    return True
+    return _ALL_INJECTED.pop(case["op"], True)
 
 
 def outcome_class(out):
